@@ -127,6 +127,7 @@ type State struct {
 	base    *stateBase
 	private []privRef
 	dead    bool
+	prefixHavoc []string // array prefixes havocked wholesale (arrays registered later must be fresh too)
 }
 
 func (s *State) clone() *State {
